@@ -409,6 +409,11 @@ def fold_str(e, fi, prog, _depth=0):
                 tgt = g.generators[0].target
                 if isinstance(tgt, ast.Name) and isinstance(elt.values[0].value, ast.Name) and elt.values[0].value.id == tgt.id and not g.generators[0].ifs:
                     return "@SETLIST@"
+        # SEP.join(<constant template> for _ in xs): one or more copies of the template; two copies show how SEP binds
+        if sep is not None and isinstance(g, (ast.GeneratorExp, ast.ListComp)) and len(g.generators) == 1 and not g.generators[0].ifs:
+            tmpl = fold_str(g.elt, fi, prog, _depth + 1)
+            if tmpl is not None:
+                return tmpl + sep + tmpl
         return None
     return None
 
@@ -486,6 +491,13 @@ class SqlSite:
         return self.fi.loc(self.call)
 
     def binding_origin(self, i):
+        if self.bindings is None and self.bind_star is not None:
+            # [a, b, *rest]: the placeholders before the starred part are bound positionally from the start
+            elts = self.bind_star.elts
+            k = next((j for j, x in enumerate(elts) if isinstance(x, ast.Starred)), len(elts))
+            if i < k:
+                return origin(elts[i], self.fi)
+            return None
         if self.bindings is None or i >= len(self.bindings):
             return None
         return origin(self.bindings[i], self.fi)
